@@ -242,8 +242,9 @@ impl LexiconReader {
             entries: Vec::new(),
             unresolved: 0,
             start_pos: 0,
-            max_left: i16::MAX,
-            max_right: i16::MAX,
+            // without a connection matrix no connection id is valid
+            max_left: 0,
+            max_right: 0,
             num_system: usize::MAX,
         }
     }
